@@ -48,7 +48,10 @@ Verdict(r) ==
     (IF r.res # "ok" THEN <<"C19:dicleanup.raised." \o r.res>>
      ELSE IF DiCleanupOK(r.b[1], r.b[2], r.dn, r.di, r.dt, r.dh, r.rn, r.ri, r.rt, r.rh, r.on, r.oe) THEN <<>>
      ELSE <<"C19:dicleanup.guarantees">>)
-  ELSE IF ~Integrity(FromJ(r.src)) \/ (r.fn = "cleanup" /\ Unspecified(FromJ(r.src), [OpDefaults EXCEPT !.name = "cleanup", !.b3 = r.b[3]]))
+  \* the argument was built by the harness through public calls only: if it is not a consistent network, that is a
+  \* finding here as well (a derived network of an inconsistent one satisfies no definition)
+  ELSE IF ~Integrity(FromJ(r.src)) THEN <<"C19:argument-built-by-public-calls-is-inconsistent">>
+  ELSE IF r.fn = "cleanup" /\ Unspecified(FromJ(r.src), [OpDefaults EXCEPT !.name = "cleanup", !.b3 = r.b[3]])
     THEN <<"tainted">>
   ELSE LET cl == Check(r)
            bad == SelectSeq([k \in DOMAIN cl |-> k], LAMBDA k : ~cl[k][2])
